@@ -238,7 +238,7 @@ PROPS = {
                      "the time asleep is an explicit token advanced only by thread::sleep (shim_sleep)"],
     ),
     "C14": dict(
-        units=["traffic", "outbox"],
+        units=["traffic", "outbox", "members"],
         undecided=["the composition over several nodes: lemma_burst_bounded is proved over a step relation that transcribes the per-step clauses to COUNTS of messages in flight "
                    "(forwards, copies, acknowledgements); that every real handler step on every node is one of those steps - in particular that the member tables of the "
                    "nodes describe one cluster with one primary - is read off the contracts, not machine-checked",
